@@ -117,6 +117,7 @@ _PERT = ["none", "reorder", "value", "mult", "position", "interval_start", "inte
          "residue", "nterm_value", "labile_drop", "static_value", "isotope_value", "adduct_value", "interval_mod", "interval_reorder",
          "nterm_reorder", "interval_mod_mult",
          # multisets, not sets: [A, A, B] differs from [A, B, B] (same length, same set of distinct modifications)
+         "extra_position",       # b carries everything a carries plus a modification on one more residue (a's positions are a subset)
          "multiset_internal", "multiset_mult", "multiset_nterm", "multiset_cterm", "multiset_labile", "multiset_unknown", "multiset_interval"]
 
 
@@ -151,6 +152,8 @@ def o_equality(seq: str, glob: bool, nint: int, pert: int, excl=()) -> bool:
         if p == "duplicate":
             mods0 = mods0 + [Mod("m1", 2)]
         kw["internal_mods"] = {(1 if (p == "position" and L > 1) else 0): mods0}
+        if p == "extra_position" and L > 1:
+            kw["internal_mods"][L - 1] = [Mod("m2", 1)]
         if L == 1 and p == "position":
             kw["internal_mods"] = {0: mods0[:1]}
         if nint:
@@ -188,6 +191,8 @@ def o_equality(seq: str, glob: bool, nint: int, pert: int, excl=()) -> bool:
     if kind == "multiset_interval" and not nint:
         effective = "none"
     if kind in ("multiset_nterm", "multiset_cterm", "multiset_labile", "multiset_unknown") and not glob:
+        effective = "none"
+    if kind == "extra_position" and L == 1:
         effective = "none"
     if kind == "position" and L == 1:
         effective = "drop"
